@@ -27,6 +27,7 @@ def declare(rep):
     rep.rule("C12.area-normal", "update_face_normal_and_area: area = |(x2-x1)x(x3-x1)|/2, normal = normalised cross product", floor=2)
     rep.rule("C12.centroid", "compute_centroid: sum over used faces of (x1+x2+x3)/3*area, divided by area_", floor=2)
     rep.rule("C12.flood-fill-complete", "the winding flood fill of check_face_normal_orientation queues, for the seed face and for every face it visits, the neighbours across all three edges of that face - (n1,n2), (n2,n3), (n3,n1): a neighbour that is never queued from a face can stay unreached, so a wrongly wound input triangle is left as it is", floor=2)
+    rep.rule("C12.eigen-similarity", "every Givens step of gte::SymmetricEigensolver3x3::operator() is a similarity transform of the tridiagonal matrix (b00 b01 b11 b12 b22), and every final reflection of the 2x2 block it diagonalises: with c, s the half-angle pair of GetCosSin(u, v) - c^2+s^2 = 1 and 2cs u = (c^2-s^2) v - the straight-line update preserves trace, tr(B^2) and det, i.e. the characteristic polynomial, as a polynomial identity modulo those two relations. A step that is not a similarity makes the iteration converge to numbers that are not the eigenvalues of the covariance matrix, and the long axis is then wrong for every cell", floor=4)
     rep.rule("C12.area-sum", "compute_area: sum of get_area() over used faces only", floor=1)
     rep.rule("C12.aabb", "get_aabb: running min/max per axis over used nodes from +/-infinity, returned as (min xyz, max xyz)", floor=7)
     rep.rule("C12.eigen-layout", "the axis returned for eigenvalue k is (evec[k][0], evec[k][1], evec[k][2]): index bookkeeping through the mat33 constructor, transpose and get_col agrees between eigen_decomposition and get_cell_longest_axis", floor=3)
@@ -57,6 +58,7 @@ def run(rep, prog, tier):
     centroid(rep, prog)
     area_sum(rep, prog)
     flood_fill_complete(rep, prog)
+    eigen_similarity(rep, prog)
     aabb(rep, prog)
     covariance(rep, prog)
     eigen_layout(rep, prog)
@@ -357,6 +359,156 @@ def centroid(rep, prog):
         rep.ok("C12.centroid", prog, fn, None, "returns the accumulated sum divided by the total area area_")
     else:
         rep.violation("C12.centroid", prog, fn, None, "centroid not normalised by area_", "compute_centroid must divide the accumulated sum by area_; it returns %s" % re.sub(r"#\d+(~\d+)?", "", str(comps))[:160])
+
+
+class _NoForm(Exception):
+    pass
+
+
+def _lin_eval(e, env, consts):
+    """value of a scalar expression made of locals, literals, + - * /, unary -, std::sqrt - as a sympy expression"""
+    e = strip(e)
+    k = e.get("k")
+    if k in ("ParenExpr", "CStyleCastExpr", "CXXFunctionalCastExpr", "CXXStaticCastExpr", "ImplicitCastExpr") and e.get("c"):
+        return _lin_eval([c_ for c_ in e["c"] if isinstance(c_, dict)][-1], env, consts)
+    if k in ("FloatingLiteral", "IntegerLiteral"):
+        return sp.nsimplify(e.get("v"))
+    if k == "DeclRefExpr" and isinstance(e.get("ref"), dict):
+        d = e["ref"].get("did")
+        if d in env:
+            return env[d]
+        if d in consts:
+            return consts[d]
+        raise _NoForm("the value of '%s' at line %s" % (e["ref"].get("name"), e.get("l")))
+    if k == "UnaryOperator" and e.get("op") in ("-", "+"):
+        v = _lin_eval(e["c"][0], env, consts)
+        return -v if e["op"] == "-" else v
+    if k == "BinaryOperator" and e.get("op") in ("+", "-", "*", "/"):
+        a, b = _lin_eval(e["c"][0], env, consts), _lin_eval(e["c"][1], env, consts)
+        return {"+": a + b, "-": a - b, "*": a * b, "/": a / b}[e["op"]]
+    if k == "CallExpr" and e.get("callee") in ("std::sqrt", "sqrt") and len(call_args(e)) == 1:
+        return sp.sqrt(_lin_eval(call_args(e)[0], env, consts))
+    raise _NoForm("expression '%s' at line %s" % (short(e, 60), e.get("l")))
+
+
+def eigen_similarity(rep, prog):
+    cands = [q for q in prog.by_qn if q.startswith("gte::SymmetricEigensolver3x3<") and q.endswith("::operator()")]
+    if not cands:
+        raise AnalysisBroken("gte::SymmetricEigensolver3x3::operator() is not instantiated in this program")
+    fn = prog.fn(cands[0])
+    fi = prog.index(fn)
+    # constants: const locals initialised from a literal
+    consts = {}
+    for v in walk(fn["body"]):
+        if v.get("k") == "Var" and isinstance(v.get("init"), dict) and (v.get("t") or "").strip().endswith("const") or (v.get("k") == "Var" and (v.get("t") or "").startswith("const ") and isinstance(v.get("init"), dict)):
+            try:
+                consts[v["did"]] = _lin_eval(v["init"], {}, {})
+            except (_NoForm, Exception):
+                pass
+    # the tridiagonal: diagonal entries from the array handed to Sort / read into eval, off-diagonals from the Converged calls
+    conv = [n for n in walk(fn["body"]) if is_call(n) and n.get("callee", "").endswith("::Converged") and len(call_args(n)) == 4]
+    diag_init = [v for v in walk(fn["body"]) if v.get("k") == "Var" and v.get("name") == "diagonal" and isinstance(v.get("init"), dict)]
+    if not conv or not diag_init:
+        raise AnalysisBroken("SymmetricEigensolver3x3::operator(): the diagonal array / the Converged tests were not found")
+    diag = [x["ref"]["did"] for x in walk(diag_init[0]["init"]) if x.get("k") == "DeclRefExpr" and (x.get("ref") or {}).get("dk") == "Var"]
+    names = {x["ref"]["did"]: x["ref"]["name"] for x in walk(fn["body"]) if x.get("k") == "DeclRefExpr" and isinstance(x.get("ref"), dict) and "did" in x["ref"]}
+    if len(diag) != 3 or len(set(diag)) != 3:
+        raise AnalysisBroken("SymmetricEigensolver3x3::operator(): the diagonal is not made of three locals")
+    off = {}
+    for cv in conv:
+        a = [strip(x) for x in call_args(cv)[1:]]
+        if not all(x.get("k") == "DeclRefExpr" for x in a):
+            raise AnalysisBroken("SymmetricEigensolver3x3::operator(): Converged() is not called with three locals")
+        d0, d1, o = (x["ref"]["did"] for x in a)
+        if d0 in diag and d1 in diag:
+            off[frozenset((diag.index(d0), diag.index(d1)))] = o
+    if set(off) != {frozenset((0, 1)), frozenset((1, 2))}:
+        raise AnalysisBroken("SymmetricEigensolver3x3::operator(): the two super-diagonal entries could not be identified from the Converged tests")
+    tri = [diag[0], off[frozenset((0, 1))], diag[1], off[frozenset((1, 2))], diag[2]]
+
+    def invariants(v):
+        a00, a01, a11, a12, a22 = v
+        return [("the trace", a00 + a11 + a22), ("tr(B^2)", a00 ** 2 + a11 ** 2 + a22 ** 2 + 2 * a01 ** 2 + 2 * a12 ** 2), ("the determinant", a00 * a11 * a22 - a00 * a12 ** 2 - a22 * a01 ** 2)]
+
+    n = 0
+    blocks = []
+    for loop in [l for l in walk(fn["body"]) if l.get("k") == "ForStmt"]:
+        body = loop.get("body") or {}
+        stmts = body.get("c", []) if body.get("k") == "CompoundStmt" else []
+        blocks.append((stmts, None, loop))
+        for st_ in stmts:
+            if st_.get("k") == "IfStmt" and any(is_call(x) and x.get("callee", "").endswith("::Converged") for x in walk(st_.get("cond") or {})):
+                cvc = [x for x in walk(st_["cond"]) if is_call(x) and x.get("callee", "").endswith("::Converged")][0]
+                th = st_.get("then") or {}
+                blocks.append((th.get("c", []) if th.get("k") == "CompoundStmt" else [], cvc, loop))
+    for stmts, final_of, loop in blocks:
+        gcs = [i for i, st_ in enumerate(stmts) if is_call(strip(st_)) and strip(st_).get("callee", "").endswith("::GetCosSin")]
+        if not gcs:
+            continue
+        n += 1
+        syms = {d: sp.Symbol(names[d]) for d in tri}
+        env = dict(syms)
+        try:
+            g = strip(stmts[gcs[0]])
+            ga = call_args(g)
+            u, v = _lin_eval(ga[0], env, consts), _lin_eval(ga[1], env, consts)
+            c2d, s2d = (strip(x)["ref"]["did"] for x in ga[2:4])
+            c2, s2 = sp.Symbol("c2"), sp.Symbol("s2")
+            env[c2d], env[s2d] = c2, s2
+            half_angle = {}
+            end = None
+            cs = None
+            for i in range(gcs[0] + 1, len(stmts)):
+                st_ = strip(stmts[i])
+                if st_.get("k") in ("IfStmt", "BreakStmt"):
+                    end = i
+                    break
+                if is_call(st_) and "::Update" in st_.get("callee", ""):
+                    a = [strip(x) for x in call_args(st_)]
+                    cs = (a[1]["ref"]["did"], a[2]["ref"]["did"])
+                    # from here on c, s are the half-angle pair: check 2cs = s2 and c^2 - s^2 = c2 modulo c2^2 + s2^2 = 1
+                    cv_, sv_ = env[cs[0]], env[cs[1]]
+                    r1 = sp.fraction(sp.together(sp.expand(2 * cv_ * sv_ - s2)))[0]
+                    r2 = sp.fraction(sp.together(sp.expand(cv_ ** 2 - sv_ ** 2 - c2)))[0]
+                    G0 = sp.groebner([c2 ** 2 + s2 ** 2 - 1], c2, s2, order="lex")
+                    if G0.reduce(sp.expand(r1))[1] != 0 or G0.reduce(sp.expand(r2))[1] != 0:
+                        raise _NoForm("c and s at line %s are not the half-angle pair of (c2, s2)" % st_.get("l"))
+                    env[cs[0]], env[cs[1]] = sp.Symbol("c"), sp.Symbol("s")
+                    continue
+                if st_.get("k") == "BinaryOperator" and st_.get("op") == "=" and strip(st_["c"][0]).get("k") == "DeclRefExpr":
+                    t = strip(st_["c"][0])
+                    if "bool" in (t.get("t") or ""):
+                        continue
+                    env[t["ref"]["did"]] = _lin_eval(st_["c"][1], env, consts)
+                    continue
+                raise _NoForm("statement at line %s" % st_.get("l"))
+            if cs is None or end is None:
+                raise _NoForm("the loop at line %s has no Update(Q, c, s) / convergence test" % loop.get("l"))
+        except _NoForm as ex:
+            raise AnalysisBroken("SymmetricEigensolver3x3::operator(): the Givens step of the loop at line %s is not in a form this checker evaluates (%s)" % (loop.get("l"), ex))
+        c, s_ = sp.Symbol("c"), sp.Symbol("s")
+        gens = [c, s_] + [syms[d] for d in tri]
+        G = sp.groebner([c ** 2 + s_ ** 2 - 1, sp.expand(2 * c * s_ * u - (c ** 2 - s_ ** 2) * v)], *gens, order="grevlex")
+        bad = []
+        if final_of is not None:
+            # the final reflection diagonalises the 2x2 block (d_i, o, d_j) named by the Converged test: o is dropped (taken as 0)
+            di, dj, o = (strip(x)["ref"]["did"] for x in call_args(final_of)[1:])
+            pairs = [(("the trace of the 2x2 block", syms[di] + syms[dj]), ("", env[di] + env[dj])),
+                     (("the sum of squares of the 2x2 block", syms[di] ** 2 + syms[dj] ** 2 + 2 * syms[o] ** 2), ("", env[di] ** 2 + env[dj] ** 2))]
+            if any(env[d] != syms[d] for d in tri if d not in (di, dj)):
+                pairs.append((("the entries outside the 2x2 block", sp.Integer(0)), ("", sp.Integer(1))))
+        else:
+            pairs = list(zip(invariants([syms[d] for d in tri]), invariants([env[d] for d in tri])))
+        for (what, before), (_w, after) in pairs:
+            if G.reduce(sp.expand(before - after))[1] != 0:
+                bad.append(what)
+        if not bad:
+            rep.ok("C12.eigen-similarity", prog, fn, stmts[gcs[0]], ("the final reflection (lines %s-%s) preserves trace and sum of squares of the 2x2 block it diagonalises" if final_of is not None else "the Givens step (lines %s-%s) preserves trace, tr(B^2) and det of the tridiagonal matrix") % (stmts[gcs[0]].get("l"), stmts[end].get("l")) + " modulo c^2+s^2=1 and 2cs*u=(c^2-s^2)*v")
+        else:
+            rep.violation("C12.eigen-similarity", prog, fn, stmts[gcs[0]], "Givens step is not a similarity transform" if final_of is None else "final reflection is not a similarity transform",
+                          "the update of (%s) in the loop at line %s of SymmetricEigensolver3x3::operator() does not preserve %s of the tridiagonal matrix (checked as a polynomial identity modulo c^2+s^2=1 and the half-angle relation of GetCosSin): the step is not B <- G^T B G, so the iteration changes the eigenvalues it is converging to - the eigenvalues and eigenvectors returned to get_cell_longest_axis are not those of the covariance matrix and the long axis (hence the division plane) is wrong for every cell that takes this branch" % (", ".join(names[d] for d in tri), loop.get("l"), " and ".join(bad)))
+    if n == 0:
+        raise AnalysisBroken("SymmetricEigensolver3x3::operator(): no Givens iteration (loop with GetCosSin) found")
 
 
 def _chain_through_ranges(fn, e):
